@@ -117,6 +117,10 @@ func (d *storeDom) Gen(r *gen.R, tier string, emit func(string)) {
 	for _, a := range lists {
 		for _, b := range lists {
 			if tier != "thorough" || true {
+				if n%32 == 0 && n > 0 {
+					emit(wire.Line("reset"))
+					emit(wire.Line("cfg", "coll", "T", "N"))
+				}
 				id := "p" + strconv.Itoa(n)
 				n++
 				emit(wire.Line(append([]string{"create", id}, a...)...))
